@@ -91,11 +91,20 @@ OkMeansConfigured(c, o) ==
 \* the child never runs anything else than what was configured either
 ExecIsConfigured(c, o) == o.execd => ImageMismatch(c, o.image) = {}
 
-\* Err =>  some step failed and the error carries that step's (positive) errno
-ErrCarriesErrno(o) ==
+\* Err =>  some step FAILED and the error carries that step's (positive) errno.
+\* A read of the sync pipe that was merely interrupted (EINTR) has not failed - nothing is wrong with the
+\* child, the call is to be repeated - so by itself it does not justify telling the caller Err.
+EINTR == 4
+Justifies(f) == ~(f.step = "read" /\ f.errno = EINTR)
+ErrNeedsFailedStep(o) ==
     \A i \in DOMAIN o.returns :
         LET r == o.returns[i] IN
-        r.res = "err" => r.failed # {} /\ CodeAdmissible(r.code, r.failed)
+        r.res = "err" => \E f \in r.failed : Justifies(f)
+ErrCarriesErrno(o) ==
+    \A i \in DOMAIN o.returns :
+        LET r == o.returns[i]
+            J == {f \in r.failed : Justifies(f)}
+        IN  (r.res = "err" /\ J # {}) => CodeAdmissible(r.code, J)
 \* a failed step up to exec  =>  no Ok   (same as OkMeansExec's first half, kept separate for
 \* the violation's name)
 FailureMeansErr(o) ==
@@ -103,10 +112,18 @@ FailureMeansErr(o) ==
         LET r == o.returns[i] IN
         PreExecFailed(r.failed) # {} => r.res = "err"
 
-\* Err means the spawn did NOT happen: the caller that is told Err has no handle on a child, so there
-\* must be no child running (or going to run) the program - it was never created, or it exited without
-\* exec.  (An interrupted / failed read of the status of a child that then execs is not a failed step
-\* of the spawn; returning Err for it leaves an un-owned process behind.)
+\* When the caller is told Err it gets no handle, so no child created by this call may still be RUNNING
+\* at that moment: the child was never created, or it has exited (reaped or zombie does not matter), or -
+\* having reported its failure - it is on its way out and will never exec (r.child = its state when the
+\* caller returned).  A child that runs the program, or goes on to exec it, after the caller got Err is an
+\* un-owned process left behind.
+ErrLeavesNoRunningChild(o) ==
+    \A i \in DOMAIN o.returns :
+        LET r == o.returns[i] IN
+        (r.proc = "P" /\ r.res = "err") => (r.child \in {"none", "exited"} \/ ~o.execd)
+\* evidence-only lead, never a verdict (it demands more than the statement says): Err although the
+\* child exec'ed at some time (e.g. an injected hard failure of the sync-pipe read: the parent waits for
+\* the child, reaps it and reports the error - exactly what the statement asks for)
 ErrMeansNoExec(o) ==
     \A i \in DOMAIN o.returns : (o.returns[i].proc = "P" /\ o.returns[i].res = "err") => ~o.execd
 
@@ -136,8 +153,9 @@ Violated(c, o, atEnd) ==
     \cup (IF ReturnsAtMostOnce(o) THEN {} ELSE {"ReturnsAtMostOnce"})
     \cup (IF OkMeansExec(o) THEN {} ELSE {"OkMeansExec"})
     \cup (IF OkMeansConfigured(c, o) /\ ExecIsConfigured(c, o) THEN {} ELSE {"OkMeansConfigured"})
+    \cup (IF ErrNeedsFailedStep(o) THEN {} ELSE {"ErrNeedsFailedStep"})
     \cup (IF ErrCarriesErrno(o) THEN {} ELSE {"ErrCarriesErrno"})
-    \cup (IF ErrMeansNoExec(o) THEN {} ELSE {"ErrMeansNoExec"})
+    \cup (IF ErrLeavesNoRunningChild(o) THEN {} ELSE {"ErrLeavesNoRunningChild"})
     \cup (IF NoneLeftRunning(o, atEnd) THEN {} ELSE {"NoneLeftRunning"})
     \cup (IF WaitStatus(o) THEN {} ELSE {"WaitStatus"})
     \cup (IF WaitStatusStable(o) THEN {} ELSE {"WaitStatusStable"})
